@@ -6,20 +6,32 @@ EXTENDS EcdsaObj, TLC
 CONSTANTS MaxCalls
 VARIABLES impl, c, st, hist, n
 vars == <<impl, c, st, hist, n>>
-Init == impl \in {"sticks", "restores", "stale"} /\ c \in Constructions /\ st = ImplInit(c) /\ hist = <<>> /\ n = 0
+Init == impl \in {"sticks", "restores", "stale", "objkey-wins"} /\ c \in Constructions /\ st = ImplInit(c) /\ hist = <<>> /\ n = 0
 Call == /\ n < MaxCalls
-        /\ \E act \in ObjActs : \E x \in {ImplStep(impl, st, act, FactOf(SignerOf(c)))} :
+        /\ \E act \in StatefulActs(Routes) : \E x \in {ImplStep(impl, st, act, FactOf(SignerOf(c)))} :
              st' = x.st /\ hist' = Append(hist, x.ev) /\ n' = n + 1
         /\ UNCHANGED <<impl, c>>
-Next == Call
+\* a call on a serialized route (changes nothing; modelled as the last call of a sequence)
+SerializedCall ==
+        /\ n < MaxCalls
+        /\ \E act \in VerifyActs(SerializedRoutes) : \E x \in {ImplStep(impl, st, act, FactOf(SignerOf(c)))} :
+             st' = x.st /\ hist' = Append(hist, x.ev) /\ n' = MaxCalls
+        /\ UNCHANGED <<impl, c>>
+Next == Call \/ SerializedCall
 Spec == Init /\ [][Next]_vars
+FaultyBlamedOnlyWhenWrong == (impl = "objkey-wins" /\ ObjBlamed(ObjJudge(c, hist, FactOf(SignerOf(c))))) =>
+    \E i \in 1..Len(hist) : hist[i].a = "verify" /\ hist[i].via = "module-object" /\ hist[i].k # 0 /\ hist[i].pk # 0 /\ hist[i].pk # hist[i].k
 ConformingNeverBlamed == impl \in {"sticks", "restores"} => ~ObjBlamed(ObjJudge(c, hist, FactOf(SignerOf(c))))
 \* the faulty implementation is blamed exactly when a call verified against a point other than the key in force
 StaleBlamedOnlyWhenWrong == (impl = "stale" /\ ObjBlamed(ObjJudge(c, hist, FactOf(SignerOf(c))))) =>
-    \E i \in 1..Len(hist) : hist[i].a = "verify" /\ hist[i].obs # Expected([key |-> hist[i].pk, z |-> hist[i].tz], hist[i], FactOf(SignerOf(c)))
+    \E i \in 1..Len(hist) : hist[i].a = "verify" /\ ~VerdictOk([key |-> hist[i].pk, z |-> hist[i].tz], hist[i], FactOf(SignerOf(c)), hist[i].obs)
 \* and the replayed sequences do expose it: a valid triple rejected, and an invalid one accepted
-ASSUME LET q == << [a |-> "verify", z |-> 1, k |-> 2], [a |-> "verify", z |-> 0, k |-> 0] >> IN
-       ObjBlamed(ObjJudge("sign", ImplEvents("stale", ImplInit("sign"), q, 1, FactOf(1)), FactOf(1))) /\ q \in ObjSeqs(2)
-ASSUME LET q == << [a |-> "verify", z |-> 2, k |-> 2], [a |-> "verify", z |-> 1, k |-> 0] >> IN
+ASSUME LET q == << [a |-> "verify", via |-> "method", z |-> 1, k |-> 2], [a |-> "verify", via |-> "method", z |-> 0, k |-> 0] >> IN
+       ObjBlamed(ObjJudge("sign", ImplEvents("stale", ImplInit("sign"), q, 1, FactOf(1)), FactOf(1))) /\ q \in ObjSeqs(2, {"method"})
+\* the key named by the caller of the module-level function must win over the key the object carries
+ASSUME LET q == << [a |-> "verify", via |-> "module-object", z |-> 1, k |-> 2] >> IN
+       /\ ObjBlamed(ObjJudge("sign", ImplEvents("objkey-wins", ImplInit("sign"), q, 1, FactOf(1)), FactOf(1))) /\ q \in ObjSeqs(1, Routes)
+       /\ ~ObjBlamed(ObjJudge("sign", ImplEvents("sticks", ImplInit("sign"), q, 1, FactOf(1)), FactOf(1)))
+ASSUME LET q == << [a |-> "verify", via |-> "method", z |-> 2, k |-> 2], [a |-> "verify", via |-> "method", z |-> 1, k |-> 0] >> IN
        ObjBlamed(ObjJudge("init-k1-signed-by-k2", ImplEvents("stale", ImplInit("init-k1-signed-by-k2"), q, 1, FactOf(2)), FactOf(2)))
 =============================================================================
